@@ -16,16 +16,19 @@ RTOL = 1e-7
 RTOL_EXT = 1e-6
 
 CLASSES = ["Cuboid", "Cylinder", "CylinderSegment", "Sphere", "Tetrahedron", "TetrahedronLeft", "TriangularMesh", "TriangularMeshFromMesh",
-           "Triangle", "Circle", "Polyline", "Dipole"]
+           "TriangularMeshOffset", "TriangularMeshPair", "Triangle", "Circle", "Polyline", "Dipole"]
 POSE = ((0.3, -0.2, 0.5), (0.4, -0.3, 0.8))
 POSES = [POSE, ((-1.0, 2.0, 0.1), (0.0, 0.0, 2.2)), ((0.0, 0.0, 0.0), (0.0, 0.0, 0.0))]
+
+
+MESH_VARIANTS = {"TriangularMeshFromMesh": "from_mesh", "TriangularMeshOffset": "offset", "TriangularMeshPair": "pair"}
 
 
 def params(cls, ri):
     if cls == "TetrahedronLeft":  # left-handed vertex order: the chirality fix must not depend on the unit
         v = C01.TV
         return "Tetrahedron", {"vertices": [v[0], v[2], v[1], v[3]]}
-    if cls == "TriangularMeshFromMesh":   # the same bodies through the triangle-soup constructor
+    if cls in MESH_VARIANTS:   # the same bodies through the triangle-soup constructor / other local coordinates / in company
         return "TriangularMesh", C01.REGIMES["TriangularMesh"][ri]
     return cls, C01.REGIMES[cls][ri]
 
@@ -33,7 +36,7 @@ def params(cls, ri):
 def nregimes(cls, tier="quick"):
     if cls == "TetrahedronLeft":
         return 1
-    if cls == "TriangularMeshFromMesh":
+    if cls in MESH_VARIANTS:
         cls = "TriangularMesh"
     return len(C01.REGIMES[cls]) if tier == "thorough" else min(3, len(C01.REGIMES[cls]))
 
@@ -58,6 +61,20 @@ def scaled_source(cls0, par, s, exc_mag, pose, via=None):
         return magpy.magnet.TriangularMesh.from_mesh(mesh=soup, polarization=tuple(exc), position=p[0], orientation=R.from_rotvec(p[1]),
                                                      check_open="ignore", check_disconnected="ignore", check_selfintersecting="ignore",
                                                      reorient_faces="ignore")
+    if via == "offset":
+        # the same body described in local coordinates that are all negative (vertices shifted, position compensating)
+        v = np.array(par2["vertices"], float)
+        off = v.max(axis=0) + 0.37 * s
+        Rm = R.from_rotvec(p[1])
+        return magpy.magnet.TriangularMesh(vertices=v - off, faces=par2["faces"], polarization=tuple(exc), position=p[0] + Rm.apply(off),
+                                           orientation=Rm)
+    if via == "pair":
+        # evaluated in one call behind a companion: the same mesh topology shrunk to half size about its centroid, at the same pose
+        v = np.array(par2["vertices"], float)
+        c0 = v.mean(axis=0)
+        comp = magpy.magnet.TriangularMesh(vertices=c0 + 0.5 * (v - c0), faces=par2["faces"], polarization=tuple(-0.7 * exc[::-1]),
+                                           position=p[0], orientation=R.from_rotvec(p[1]))
+        return _Pair(comp, C01.make(cls0, par2, tuple(exc), p))
     if via == "ops":
         # the same pose reached through the API: built at another place, moved, then rotated about an anchor next to it
         # (final position = a + R (p0 - a)); all lengths, also the anchor offset, carry the unit
@@ -78,6 +95,29 @@ def scaled_source(cls0, par, s, exc_mag, pose, via=None):
     return C01.make(cls0, par2, tuple(exc), p)
 
 
+class _Pair:
+    """[companion, body] evaluated in ONE call; reports the body's rows"""
+
+    def __init__(self, comp, body):
+        self.comp, self.body = comp, body
+        for a in ("status_open", "status_disconnected", "status_selfintersecting", "status_reoriented", "faces"):
+            setattr(self, a, getattr(body, a))
+
+    def _get(self, f, obs):
+        import magpylib as magpy
+
+        return np.asarray(getattr(magpy, "get" + f)([self.comp, self.body], obs))[1]
+
+    def getB(self, obs):
+        return self._get("B", obs)
+
+    def getH(self, obs):
+        return self._get("H", obs)
+
+    def getJ(self, obs):
+        return self._get("J", obs)
+
+
 def law(cls0):
     return {"Circle": 1, "Polyline": 1, "Dipole": 3}.get(cls0, 0)   # field * s^law is invariant
 
@@ -92,6 +132,14 @@ def run_case(c):
         l_, e_ = C01.cells(cls0, par if cls0 != "Dipole" else {}, "quick", sd)
         locs.append(l_)
         exts.append(e_)
+    if cls in MESH_VARIANTS:
+        # interior points on the rays centroid -> vertex / face centre (the C01 cell set has few points deep inside a mesh)
+        v = np.array(par["vertices"], float)
+        c0 = v.mean(axis=0)
+        ends = np.concatenate([v, v[np.array(par["faces"])].mean(axis=1)])
+        extra = np.array([c0 + t * (e - c0) for e in ends[:40] for t in (0.3, 0.6, 0.9, 1.2)]) + 1e-3 * np.array((0.31, -0.17, 0.23))
+        locs.append(extra)
+        exts.append(np.zeros(len(extra), bool))
     loc, ext = np.concatenate(locs), np.concatenate(exts)
     _, first = np.unique(np.round(loc, 15), axis=0, return_index=True)
     first = np.sort(first)
@@ -118,10 +166,10 @@ def run_case(c):
 
     def evaluate(k, mag):
         # the converter variant uses a unit whose numbers are not round in any decade (a grid-snapping converter then shows)
-        s = 10.0 ** k * (1.23456789 if cls == "TriangularMeshFromMesh" else 1.0)
+        s = 10.0 ** k * (1.23456789 if cls in MESH_VARIANTS else 1.0)
         try:
             with common.time_limit(120):
-                via = "from_mesh" if cls == "TriangularMeshFromMesh" else ("ops" if c.get("pose_by_ops") else None)
+                via = MESH_VARIANTS.get(cls) or ("ops" if c.get("pose_by_ops") else None)
                 src = scaled_source(cls0, par, s, mag, POSE, via)
                 out = {}
                 for f in fields:
@@ -262,7 +310,7 @@ def run(tier, seed):
             for pose in ((0, 1, 2) if tier == "thorough" else (0, 1)):
                 cases.append({"cls": cls, "regime": ri, "ks": ks, "mags": [1.0, 1e-12, 1e12], "maxcells": 300 if tier == "quick" else 100000,
                               "pose": pose, "seeds": [0, 1] if tier == "quick" else [0, 1, 2, 3]})
-            if cls != "TriangularMeshFromMesh" and (ri == 0 or tier == "thorough"):
+            if cls not in MESH_VARIANTS and (ri == 0 or tier == "thorough"):
                 cases.append({"cls": cls, "regime": ri, "ks": ks, "mags": [1.0], "maxcells": 100, "pose": 0, "seeds": [0], "pose_by_ops": True})
     from mc.props import C02
 
@@ -293,7 +341,10 @@ def run(tier, seed):
             cell = parts[1] if len(parts) > 1 else "-"
             viols.append({"key": f"C12|{c['cls']}|{decade_bucket(k)}|{cell}|{k0}",
                           "what": f"{c['cls']} regime {c['regime']} scale 1e{k}: {kind}: {detail}",
-                          "case": {"cls": c["cls"], "regime": c["regime"], "ks": [k], "mags": c["mags"], "maxcells": c["maxcells"],
+                          "case": {"cls": c["cls"], "regime": c["regime"],
+                                   # a deviation from the neighbouring decade is replayed with the chain of decades leading to it
+                                   "ks": [k] if "vs-neighbour" not in kind else [q for q in c["ks"] if q * k > 0 and abs(q) <= abs(k)],
+                                   "mags": c["mags"], "maxcells": c["maxcells"],
                                    "pose": c.get("pose", 0), "seeds": c.get("seeds", [0]), "pose_by_ops": c.get("pose_by_ops", False)},
                           "observed": [k, kind, detail]})
     cov = {
